@@ -170,6 +170,13 @@ func (a *PrefixAllocator) prefixToIndex(prefix *net.IPNet) (uint64, bool) {
 	ab := addr.As16()
 	bb := a.base.As16()
 
+	// The index arithmetic below works modulo 2^64 and discards the upper bits of
+	// the distance from the base, so a prefix outside the pool network could alias
+	// an index of the pool. Reject it first.
+	if !netip.PrefixFrom(netip.AddrFrom16(bb), a.networkBits).Contains(netip.AddrFrom16(ab)) {
+		return 0, false
+	}
+
 	addrHi := binary.BigEndian.Uint64(ab[:8])
 	addrLo := binary.BigEndian.Uint64(ab[8:])
 	baseHi := binary.BigEndian.Uint64(bb[:8])
